@@ -48,6 +48,25 @@ def replay_indices(seed, n_boot, n):
     return [[int(x) for x in probe.sample(frac=1, replace=True, random_state=r, axis=0, ignore_index=True)["i"]] for r in rs]
 
 
+def replay_plan(seed, n_boot, n, plan):
+    """the resample positions under the plan LIFTED FROM THE SOURCE (driver op `bootsrc.plan`): draw count, replacement,
+    loop count and which seed-stream entry seeds sample i.  None if the plan cannot be replayed."""
+    try:
+        rs = np.random.default_rng(seed=seed).integers(low=0, high=np.iinfo(np.uint32).max, size=n_boot, dtype=np.uint32)
+        probe = pd.DataFrame({"i": np.arange(n)})
+        out = []
+        seeds = [] if plan["seeds"] == "-" else plan["seeds"].split(",")
+        if len(seeds) != int(plan["loops"]):
+            return None
+        for tok in seeds:
+            r = seed if tok == "u" else rs[int(tok)]
+            out.append([int(x) for x in probe.sample(n=int(plan["draw"]), replace=plan["replace"] == "1", random_state=r,
+                                                    axis=int(plan["axis"]), ignore_index=plan["ignore_index"] == "1")["i"]])
+        return out
+    except Exception:  # noqa: BLE001
+        return None
+
+
 # ------------------------------------------------------------------------------------------- oracle (exact Fractions)
 def o_quantile(vals, q):
     """numpy 'linear' method on exact values; q an exact Fraction"""
@@ -134,7 +153,14 @@ class CHECK(Check):
                   "n positions has n rows so count's overall CI is n; constant metric => all quantiles equal; non-constant "
                   "samples => positive width for wide quantile pairs; the mean is strictly inside (min,max). Tie: resample "
                   "positions replayed from the integer seed, all *_ci accessors recomputed exactly by a Fraction oracle and "
-                  "by the compiled Lean model; same-seed identity, type/columns/index vs the point estimates, spy metric.")
+                  "by the compiled Lean model; same-seed identity, type/columns/index vs the point estimates, spy metric. "
+                  "SOURCE TIE (harness/lifters/bootstrap.py -> Generated/BootstrapSrc.lean): the data.sample keywords, the seed of "
+                  "sample i, the loop count, the numpy quantile function / method / axis / q order of the Series and the DataFrame "
+                  "path, the assembly of entry i and the quantile argument at every *_ci call site are lifted from the ast; "
+                  "Model/BootstrapSrc.lean builds ciSrc / drawCount / validResample / seedIndex from them and src_* theorems prove "
+                  "ciSrc = ci, drawCount n = n, with replacement, per-sample seeds, order as given (so quantile_mono, "
+                  "ci_length_and_order, count_is_n hold of the code as lifted); bootsrc.ci / bootsrc.plan are compared with the "
+                  "pinned model and the property's own resampling on every case.")
     design_ref = "DESIGN.md section 4, C18"
     quick_cases = 260
     thorough_cases = 1500
@@ -152,7 +178,9 @@ class CHECK(Check):
                    "abs/rel 1e-9), list lengths, types/columns/index vs point estimates, ordering, same-seed bitwise identity, "
                    "second seed recomputed too, spy-observed resample rows vs replay. PARTIAL: that resamples of varying data "
                    "differ is a statement about the RNG; it is observed per case (tag varying_samples), not proved")
-    trusted = ("numpy default_rng(seed).integers and pandas DataFrame.sample(random_state=uint32) are deterministic functions of "
+    trusted = ("harness/lifters/bootstrap.py lifts call shapes (keywords of data.sample, np.(nan)quantile, loop / seed "
+               "expressions) from the ast; that numpy / pandas honour those keywords is trusted",
+               "numpy default_rng(seed).integers and pandas DataFrame.sample(random_state=uint32) are deterministic functions of "
                "the seed (the replay calls the same two library functions on an index-only frame)",
                "np.quantile / np.nanquantile default method 'linear' (modelled by quantileLinear, checked by correspondence)",
                "pandas index union/reindex in _align_sample_indices (modelled as union of group keys with NaN filling)",
@@ -376,7 +404,30 @@ class CHECK(Check):
     def lines(self, case, impl_out):
         if "idx" not in impl_out:
             return []
-        return [ln for _, ln in self._plan(case, impl_out["idx"], "s1") + self._plan(case, impl_out["idx2"], "s2")]
+        p1 = self._plan(case, impl_out["idx"], "s1")
+        base = [ln for _, ln in p1 + self._plan(case, impl_out["idx2"], "s2")]
+        # the same computation from the pieces lifted from the source, and the lifted resampling plan
+        out = base + ["bootsrc.ci" + ln[len("boot.ci"):] for _, ln in p1] + [f"bootsrc.plan {len(case['yt'])} {case['n_boot']}"]
+        # control features: the per-level CI computed by the Lean model from the UNSPLIT data (theorems
+        # level_resample_is_filtered_resample / no_cross_talk_between_levels are about this function)
+        return out + self._ciat_lines(case, impl_out["idx"])
+
+    def _ciat_lines(self, case, idxs):
+        if case["cf"] is None:
+            return []
+        n = len(case["yt"])
+        pred = case["score"] if case["call_score"] else case["yp"]
+        rows = list(range(n))
+        itok = ";".join(proto.lst(idx) for idx in idxs)
+        w = "none" if case["w"] is None else proto.lst(case["w"])
+        out = []
+        for c in sorted(set(case["cf"])):
+            for m in case["metrics"]:
+                wt = w if m in WEIGHTABLE else "none"
+                out.append(f"boot.ciat {c} {proto.lst(case['cf'])} {self._mtok(case, m)} {proto.lst([self._gkey(case, i) for i in rows])} "
+                           f"{proto.lst(case['yt'])} {proto.lst(case['yp'])} {proto.lst([F(pred[i]) for i in rows])} {wt} {itok} "
+                           f"{proto.lst([F(q) for q in case['qs']])}")
+        return out
 
     # ---------------------------------------------------------------- oracle
     def _oracle(self, case, idxs):
@@ -482,6 +533,31 @@ class CHECK(Check):
             plan = self._plan(case, o["idx"], "s1") + self._plan(case, o["idx2"], "s2")
             for (d, _), tok in zip(plan, mo):
                 model[d] = tok
+            # ---- source-derived model == pinned model; lifted resampling plan == the property's resampling --------------
+            n1 = len(self._plan(case, o["idx"], "s1"))
+            extra = mo[len(plan):]
+            ciat = extra[n1 + 1:]
+            extra = extra[:n1 + 1]
+            if case["cf"] is not None:
+                # Lean's own split of the unsplit data (ciAt) == the per-level lines this harness built (same order: level, metric)
+                if len(ciat) != n1 or any(a != b for a, b in zip(mo[:n1], ciat)):
+                    P.append(Problem("harness", f"boot.ciat (per-level CI from the unsplit data) {ciat[:2]} != boot.ci on the split "
+                                                f"rows {mo[:2]}"))
+            if len(extra) != n1 + 1 or "bad-op" in extra:
+                P.append(Problem("harness", f"driver rejected the source-derived lines: {extra[:3]}"))
+            else:
+                for (d, _), a, b in zip(plan[:n1], mo[:n1], extra[:n1]):
+                    if a != b:
+                        P.append(Problem("correspondence", f"{d}: *_ci computed from the quantile call / q order / alignment "
+                                         f"LIFTED FROM THE SOURCE = {b[:160]} but the modelled computation (np.quantile / "
+                                         f"np.nanquantile, linear, order as given) = {a[:160]}", "C18.src-ci-model"))
+                        break
+                pl = dict(kv.split("=", 1) for kv in extra[n1].split(" "))
+                ridx = replay_plan(case["seed"], B, n, pl)
+                if ridx != o["idx"] or pl.get("stream") != "1":
+                    P.append(Problem("correspondence", f"resampling plan lifted from the source ({extra[n1]}) replays to "
+                                     f"{str(ridx)[:120]}, the property's resampling (n rows with replacement, sample i seeded "
+                                     f"by stream entry i) to {str(o['idx'])[:120]}", "C18.src_plan"))
         for tag, run in (("s1", r1), ("s2", r3)):
             for lev in levels:
                 for m in metrics:
